@@ -72,6 +72,9 @@ class SignatureTrie:
                 match_dtype = (
                     tyvars[base_type.name] if isinstance(base_type, Tyvar) and base_type.name in tyvars else dtype
                 )
+                if types.is_const(dtype):
+                    # a parameter declared as `Const(S)` stays const after `S` has been bound
+                    match_dtype = types.with_const(match_dtype)
                 if isinstance(types.without_const(match_dtype), Tyvar):
                     assert tyvar is None
                     tyvar = dtype
